@@ -21,6 +21,7 @@ EXHAUSTIVE = {"quick": {"shapes N<=3 sizes 1..3 for tenones/tenzeros/tenrand/fro
               "thorough": {"same with sizes 1..4 and 20 seeds": "complete"}}
 NPINT_ARGS = True     # a quarter of the cases pass their integer arguments as NumPy integers (core.Ctx.begin)
 STRIDED_ARGS = True   # a quarter of the cases pass every array argument as a strided, non-contiguous view (core.Ctx.begin)
+SEQ_ARGS = True       # a quarter of the cases pass short integer arrays (mode lists, permutations) as plain lists / tuples (core.Ctx.begin)
 WATCHDOG = {"quick": 600, "thorough": 3000}
 
 
